@@ -11,7 +11,7 @@ from engine.par import pmap
 
 
 SPEC_NAMES = ('cnt1', 'pos1', 'neg1', 'sum1', 'sumF1', 'sumFp1', 'sumFn1', 'dot1', 'ccnt', 'cpos', 'cneg', 'csum', 'totF', 'totFp', 'totFn', 'dot2',
-              'isperm', 'ixperm', 'F', 'modsum', 'modsumT', 'degsum', 'degsumT', 'Qmod', 'agg', 'umul', 'udiv', 'dset', 'rset', 'wset', 'cntb', 'tsum', 'trace1', 'sumdot')
+              'isperm', 'ixperm', 'F', 'modsum', 'modsumT', 'degsum', 'degsumT', 'Qmod', 'QrawB', 'agg', 'umul', 'udiv', 'dset', 'rset', 'wset', 'cntb', 'tsum', 'trace1', 'sumdot')
 
 
 def to_smt2(premises, goal, axioms):
@@ -78,7 +78,7 @@ def _cvc5(task):
     return name, out, time.time() - t0
 
 
-def discharge(obls, timeout_s=30, axioms=None, use_cvc5=False, escalate=True):
+def discharge(obls, timeout_s=30, axioms=None, use_cvc5=False, escalate=True, no_escalate=None):
     """obls: list of core.Obligation -> list of dict(name, status, backend, seconds, detail)."""
     axioms = core.spec_axioms() if axioms is None else axioms
     tasks, trivial = [], {}
@@ -93,7 +93,7 @@ def discharge(obls, timeout_s=30, axioms=None, use_cvc5=False, escalate=True):
         res[name] = (r, secs, reason, model)
     # escalation for open ones: longer budget + different seed
     if escalate:
-        again = [(n, smt, int(timeout_s * 3000), 7) for (n, smt, _, _) in tasks if res[n][0] not in ('unsat',)]
+        again = [(n, smt, int(timeout_s * 3000), 7) for (n, smt, _, _) in tasks if res[n][0] not in ('unsat',) and not (no_escalate and no_escalate(n))]
         for name, r, secs, reason, model in pmap(_solve, again):
             if r == 'unsat' or res[name][0] != 'sat':
                 res[name] = (r, res[name][1] + secs, reason, model or res[name][3])
